@@ -52,6 +52,9 @@ def Param.asDecl (p : Param) : Str :=
 
 inductive FnPrefix | member | virtual | static deriving DecidableEq, Repr, Inhabited
 
+def FnPrefix.isVirtual : FnPrefix → Bool
+  | .virtual => true | _ => false
+
 def FnPrefix.str : FnPrefix → Str
   | .member => [] | .virtual => L "virtual " | .static => L "static "
 
@@ -98,6 +101,19 @@ def Function.asDef (f : Function) : Str :=
   else if !truthy f.contents then tbOfStr (f.defSig ++ L " {}")
   else bodyBlock f.defSig none f.contents
 
+/-- `Function.__post_init__` (on a description whose return type is a `TypeDesc`, the only kind the model carries):
+    which descriptions are refused with `CppGenError`, in the order of the checks -/
+def Function.check (f : Function) : R Unit :=
+  if f.name.isEmpty then .error (.lib .CppGenError)
+  else if f.pfx.isVirtual && f.scope.isNone then .error (.lib .CppGenError)
+  else if (L "0").isPrefixOf f.init && !f.pfx.isVirtual then .error (.lib .CppGenError)
+  else .ok ()
+
+/-- a checked description rendered: what a user gets from `Function(...)` followed by `as_decl` / `as_def` -/
+def Function.render (f : Function) : R (Str × Str) := do
+  f.check
+  pure (f.asDecl, f.asDef)
+
 structure Constructor where
   scope : Str                       -- struct/class name
   explicit : Bool := false
@@ -106,6 +122,11 @@ structure Constructor where
   mil : List Str := []
   contents : Content := .str []
   deriving Repr, Inhabited
+
+/-- `Constructor.__post_init__` (scope a Struct/Class, member initialiser list a list of strings: the only kinds the
+    model carries): `= default/delete` together with a member initialiser list is refused -/
+def Constructor.check (c : Constructor) : R Unit :=
+  if !c.init.isEmpty && !c.mil.isEmpty then .error (.lib .CppGenError) else .ok ()
 
 def Constructor.declText (c : Constructor) : Str :=
   (if c.explicit then L "explicit " else []) ++ c.scope ++ L "(" ++ paramsDecl c.params ++ L ")" ++
@@ -124,6 +145,10 @@ def Constructor.asDef (c : Constructor) : Str :=
       else some ((TB.mk' (.list [.str (L ": " ++ join (L "\n, ") c.mil)])).indent)
     if mil.isNone && !truthy c.contents then tbOfStr (c.defSig ++ L " {}")
     else bodyBlock c.defSig mil c.contents
+
+def Constructor.render (c : Constructor) : R (Str × Str) := do
+  c.check
+  pure (c.asDecl, c.asDef)
 
 structure Destructor where
   scope : Str
